@@ -71,7 +71,7 @@ func (s *progStore) Append(ctx context.Context, ev *eventbus.Event) (eventbus.Of
 	case reject:
 		return "", errReject
 	case timeout:
-		<-ctx.Done() // WithPersistenceTimeout(1ms): always expires
+		vrt.Recv(ctx.Done()) // WithPersistenceTimeout(1ms): always expires (virtual time under the scheduler)
 		return "", ctx.Err()
 	}
 	return s.mem.Append(ctx, ev)
